@@ -187,7 +187,7 @@ func (m *module) load(proj *Project) (starlark.StringDict, error) {
 	t, builtins, err := m.env(proj)
 	if err != nil {
 		proj.events.ModuleLoadFailed(m.label, err)
-		return nil, err
+		return m.done(nil, err)
 	}
 
 	v, err := m.done(starlark.ExecFile(t, m.path, nil, builtins))
